@@ -20,6 +20,7 @@ import YataProofs.Indicators.CMFRange
 import YataProofs.Indicators.MFIRange
 import YataProofs.Indicators.TSIndRange
 import YataProofs.Indicators.StochRange
+import YataProofs.Indicators.Realises2
 import YataProofs.Numeric.TSIRange
 import YataProofs.Numeric.MeanAbsDev
 namespace Yata.C12
@@ -147,10 +148,11 @@ theorem C12_rsi_reachable {fp fn : List ℚ → ℚ} {gains losses : List ℚ} {
       Realises fp s'.posma (gains ++ [g]) ∧ Realises fn s'.negma (losses ++ [l]) ∧
       (∀ x ∈ gains ++ [g], 0 ≤ x) ∧ (∀ x ∈ losses ++ [l], x ≤ 0) := RSI.range_step k hp hn hfp hfn hg hl
 
-/-- the realised SMA and EMA are hull-preserving -/
+/-- the realised SMA, EMA, WMA and RMA are hull-preserving (their realisation theorems are in C05) -/
 theorem C12_hull_kinds (n : Nat) (hn : 0 < n) (v a : ℚ) (h0 : 0 ≤ a) (h1 : a ≤ 1) :
-    HullFn v (fun h => Spec.mean n (lastN n (history n v h))) ∧ HullFn v (fun h => Spec.emaRec a v h) :=
-  ⟨hullFn_sma n hn v, hullFn_ema a v h0 h1⟩
+    HullFn v (fun h => Spec.mean n (lastN n (history n v h))) ∧ HullFn v (fun h => Spec.emaRec a v h) ∧
+    HullFn v (fun h => Spec.wma n v h) ∧ HullFn v (fun h => Spec.emaRec (1 / (n : ℚ)) v h) :=
+  ⟨hullFn_sma n hn v, hullFn_ema a v h0 h1, hullFn_wma n hn v, hullFn_rma n hn v⟩
 
 theorem C12_tr_nonneg (c : Candle ℚ) (p : ℚ) (h : c.low ≤ c.high) : 0 ≤ c.trClose p := tr_nonneg c p h
 
